@@ -267,6 +267,25 @@ def _judge2(res: core.Res, mods: Dict[str, str], label: str, classes: Dict[str, 
         res.distinct(label)
     gen_names = set(lineno)
     w = {'sources': mods}
+    # classes written after a failed import in their module are not bound as written; neither is anything derived from them
+    tainted = {full for full in lineno
+               if f"{full.rsplit('.', 1)[0]}.<import-failed>" in failed and lineno[full] > int(failed[f"{full.rsplit('.', 1)[0]}.<import-failed>"])}
+    changed = True
+    while changed:
+        changed = False
+        for full in lineno:
+            if full in tainted:
+                continue
+            o = system.allobjects.get(full)
+            names = set()
+            if isinstance(o, model.Class):
+                names |= {b.fullName() for b in o.baseobjects if b is not None}
+            c = classes.get(full)
+            if c is not None:
+                names |= {f'{b.__module__}.{b.__qualname__}' for b in c.__mro__[1:]}
+            if names & tainted:
+                tainted.add(full)
+                changed = True
     for full in sorted(lineno):
         modname = full.rsplit('.', 1)[0]
         obj = system.allobjects.get(full)
@@ -274,7 +293,7 @@ def _judge2(res: core.Res, mods: Dict[str, str], label: str, classes: Dict[str, 
             res.v('C05:class-missing', f'{full} is not documented as a class ({label})', **w)
             continue
         reported = [t for t in mro_msgs if t.startswith(f'{modname}:{lineno[full]}:')]
-        if f'{modname}.<import-failed>' in failed and lineno[full] > int(failed[f'{modname}.<import-failed>']) and 'consistent method resolution' not in failed.get(full, ''):
+        if full in tainted and 'consistent method resolution' not in failed.get(full, ''):
             res.c('classes_unjudgeable')
             continue
         if full in failed:
